@@ -42,7 +42,7 @@ func cases(tier string) int {
 }
 
 var blockers = []string{"none", "none", "node-dnd", "pod-dnd-true", "pod-dnd-duration-active", "pod-dnd-duration-expired", "pod-dnd-duration-boundary",
-	"daemon-pod-dnd", "pdb-zero", "pdb-multi", "pdb-allowing", "nominated", "renominated", "deleting", "recent-pod-event", "terminal-pod-dnd"}
+	"daemon-pod-dnd", "pdb-zero", "pdb-multi", "pdb-allowing", "pdb-empty-selector", "pdb-negative-selector", "nominated", "renominated", "deleting", "recent-pod-event", "terminal-pod-dnd"}
 
 type world7 struct {
 	d           *common.DWorld
@@ -147,6 +147,23 @@ func (w *world7) apply(node *corev1.Node, nc *v1.NodeClaim, b string) {
 		e.Apply(w.helperPod(node.Name, gen.WithLabels("pdb", l, "pdb2", l)))
 		w.pdb("pdb-a-"+l, map[string]string{"pdb": l}, 1)
 		w.pdb("pdb-b-"+l, map[string]string{"pdb2": l}, 1)
+	case "pdb-empty-selector", "pdb-negative-selector":
+		// a pod WITHOUT labels in a namespace of its own, guarded by an exhausted PDB whose selector is {} (selects every
+		// pod of the namespace) or made of DoesNotExist / NotIn expressions only (which match a pod without labels)
+		ns := fmt.Sprintf("quiet-%d", w.seq+1)
+		hp := w.helperPod(node.Name)
+		hp.Namespace, hp.Labels = ns, nil
+		e.Apply(hp)
+		sel := &metav1.LabelSelector{}
+		if b == "pdb-negative-selector" {
+			sel.MatchExpressions = [][]metav1.LabelSelectorRequirement{
+				{{Key: "tier", Operator: metav1.LabelSelectorOpDoesNotExist}},
+				{{Key: "tier", Operator: metav1.LabelSelectorOpNotIn, Values: []string{"batch"}}},
+			}[w.rng.Intn(2)]
+		}
+		mu := intstr.FromInt(0)
+		e.Apply(&policyv1.PodDisruptionBudget{ObjectMeta: metav1.ObjectMeta{Name: "pdb-" + ns, Namespace: ns},
+			Spec: policyv1.PodDisruptionBudgetSpec{Selector: sel, MaxUnavailable: &mu}})
 	case "pdb-allowing":
 		l := fmt.Sprintf("a%d", w.seq)
 		e.Apply(w.helperPod(node.Name, gen.WithLabels("pdb", l)))
@@ -543,7 +560,7 @@ var _ = world.Epoch
 func init() {
 	reg.Register(&reg.Prop{
 		ID: "C07", Level: "exploration",
-		Rule:  "each case = cluster grown through the real pipeline and made attractive for one mode (all nodes empty / underutilised / drifted / drifted with terminationGracePeriod / mixed), pools with consolidateAfter 0s/5m/Never and policies WhenEmpty/WhenEmptyOrUnderutilized/Balanced, some nodes uninitialised; every node then gets at most one blocker or control (node do-not-disrupt, pod do-not-disrupt true / duration active / expired / about to expire, daemon pod do-not-disrupt, terminal pod do-not-disrupt, PDB with zero allowed, two PDBs, allowing PDB, nominated, nominated and renewed shortly before the first window ends, deleting, recent pod event) and further blockers are applied during the 15 s validation wait; 3-5 reconciles of the real disruption controller. Each candidate of each accepted command is judged against the statement's conjunction recomputed from the authoritative world (nominations from the harness' own record). Non-trivial = a command was produced while blocked nodes existed; distinct by (method, blocker spared or selected-node class).",
+		Rule:  "each case = cluster grown through the real pipeline and made attractive for one mode (all nodes empty / underutilised / drifted / drifted with terminationGracePeriod / mixed), pools with consolidateAfter 0s/5m/Never and policies WhenEmpty/WhenEmptyOrUnderutilized/Balanced, some nodes uninitialised; every node then gets at most one blocker or control (node do-not-disrupt, pod do-not-disrupt true / duration active / expired / about to expire, daemon pod do-not-disrupt, terminal pod do-not-disrupt, PDB with zero allowed, two PDBs, allowing PDB, exhausted PDB with an empty or negative-only selector over a pod without labels, nominated, nominated and renewed shortly before the first window ends, deleting, recent pod event) and further blockers are applied during the 15 s validation wait; 3-5 reconciles of the real disruption controller. Each candidate of each accepted command is judged against the statement's conjunction recomputed from the authoritative world (nominations from the harness' own record). Non-trivial = a command was produced while blocked nodes existed; distinct by (method, blocker spared or selected-node class).",
 		Cases: cases, Run: run,
 		MinObserved: map[string]int{"candidates_judged": 100},
 	})
